@@ -2225,6 +2225,9 @@ class _Gen:
             keys = rng.sample([[(i >> b) & 1 for b in range(w)] for i in range(2 ** w)], rng.randrange(0, min(2 ** w, 4) + 1))
             big = rng.random() < 0.4   # e.g. 1 / 6 / 15 of 22 shots: frequencies whose float sum is 1 only up to rounding
             cnt = [[k, rng.randrange(0, 16 if big else 4)] for k in keys]
+            if keys and rng.random() < 0.12:
+                # a measurement set of 1000+ shots (sizes at which a library would start to keep a histogram instead of recounting)
+                cnt = [[k, rng.randrange(250, 700) + (1000 if i == 0 else 0)] for i, k in enumerate(keys)]
             E({"op": "meas_from_counts", "counts": cnt}, {"k": "meas", "w": w, "n": sum(c[1] for c in cnt)})
         elif choice == "counts":
             E({"op": "meas_counts", "args": [m]}, None)
